@@ -296,16 +296,29 @@ def render(defs):
     return '\n'.join(out) + '\n'
 
 
+def _put(path, text):
+    try:
+        with open(path) as f:
+            if f.read() == text:
+                return
+    except OSError:
+        pass
+    tmp = '%s.%d.tmp' % (path, os.getpid())
+    with open(tmp, 'w') as f:
+        f.write(text)
+    os.replace(tmp, path)
+
+
 def write_fixture(dirpath, tier, seed):
     n_struct, n_enum = (46, 46) if tier == 'quick' else (260, 200)
     g = Gen(seed, n_struct, n_enum)
     defs = g.generate()
     os.makedirs(os.path.join(dirpath, 'src'), exist_ok=True)
-    with open(os.path.join(dirpath, 'Cargo.toml'), 'w') as f:
-        f.write('[package]\nname = "vf_corpus"\nversion = "0.1.0"\nedition = "2021"\n\n[lib]\npath = "src/lib.rs"\n\n[dependencies]\n'
-                'parity-scale-codec = { path = "@REPO@", features = ["derive", "max-encoded-len"] }\n\n[workspace]\n')
-    with open(os.path.join(dirpath, 'src', 'lib.rs'), 'w') as f:
-        f.write(render(defs))
-    with open(os.path.join(dirpath, 'sidecar.json'), 'w') as f:
-        json.dump(defs, f)
+    # the content is a function of (tier, seed): write only what differs, atomically, so that a concurrent check
+    # staging the same corpus never sees a half-written file
+    _put(os.path.join(dirpath, 'Cargo.toml'),
+         '[package]\nname = "vf_corpus"\nversion = "0.1.0"\nedition = "2021"\n\n[lib]\npath = "src/lib.rs"\n\n[dependencies]\n'
+         'parity-scale-codec = { path = "@REPO@", features = ["derive", "max-encoded-len"] }\n\n[workspace]\n')
+    _put(os.path.join(dirpath, 'src', 'lib.rs'), render(defs))
+    _put(os.path.join(dirpath, 'sidecar.json'), json.dumps(defs))
     return defs
